@@ -123,12 +123,20 @@ def gen_engine_case(rng: random.Random, kind: str) -> dict[str, Any]:
     if kind == "c11":
         for _ in range(rng.randrange(0, 4)):
             at(rng.randrange(2, ticks - 8), ["cancel", ["item", rng.randrange(60)]])
-        if rng.random() < 0.4:
-            at(rng.randrange(4, ticks - 6), ["user", rng.choice(["Stop", "Restart"])])
-        else:
-            at(ticks - 5, ["user", "Stop"])      # every run ends: "finalized by then" is judged on every case
+        t_stop = rng.randrange(4, ticks - 6) if rng.random() < 0.4 else ticks - 5
+        # every run ends: "finalized by then" is judged on every case
+        at(t_stop, ["user", rng.choice(["Stop", "Restart"]) if t_stop != ticks - 5 else "Stop"])
+        for _ in range(rng.choice([0, 0, 1, 1, 2])):     # commands from the user's command buttons
+            at(rng.choice([t_stop + 1, rng.randrange(2, ticks - 2), rng.randrange(2, ticks - 2)]),
+               ["user", rng.choice(["CmdA", "CmdB", "CmdC", "CmdD"])])
     elif kind == "c10":
-        at(rng.randrange(3, ticks - 8), ["user", rng.choice(["Stop", "Stop", "Restart"])])
+        t_stop = rng.randrange(3, ticks - 8)
+        at(t_stop, ["user", rng.choice(["Stop", "Stop", "Restart"])])
+        # commands from the user's command buttons: accepted in every engine state, also between the two phases of
+        # Stop / Restart (t_stop + 1) and when no run is active
+        for _ in range(rng.choice([0, 0, 1, 1, 2])):
+            at(rng.choice([t_stop + 1, t_stop + 1, t_stop, rng.randrange(2, ticks - 2)]),
+               ["user", rng.choice(["CmdA", "CmdB", "CmdC", "CmdD"])])
     else:  # c12: requests against every item of the run log, offered or not
         for _ in range(rng.randrange(1, 6)):
             sel = ["item", rng.randrange(60)] if rng.random() < 0.93 else ["id", "nope"]
